@@ -120,6 +120,23 @@ def mk_query(ids):
     return SMTQuery(decl + body, list(ids))
 
 
+def real_callback(args, sctx, path_ctx, out):
+    """run halmos's own done-callback on a finished solver future (the function context is a bare FunctionContext carrying only the
+    fields the callback reads: args, solver_outputs, solving_ctx)"""
+    from concurrent.futures import Future
+
+    from halmos.__main__ import CounterexampleHandler
+    from halmos.solve import FunctionContext
+
+    fctx = object.__new__(FunctionContext)
+    for k, v in (("args", args), ("solver_outputs", []), ("solving_ctx", sctx)):
+        object.__setattr__(fctx, k, v)
+    h = CounterexampleHandler(ctx=fctx, is_invariant=False, is_probe=False, flamegraph_enabled=False, potential_flamegraphs={}, submitted_futures=[])
+    fut = Future()
+    fut.set_result(out)
+    h._solve_end_to_end_callback(fut, ex=None, path_ctx=path_ctx, description="")
+
+
 def run_history(acc, fam_name, style, seq, workdir):
     """seq: list of id tuples. returns violation tuple or None"""
     import pathlib
@@ -151,9 +168,9 @@ def run_history(acc, fam_name, style, seq, workdir):
             got_unsat = out.result == unsat
             if got_unsat != want_unsat and str(out.result) != "err":
                 return ("wrong-answer", f"query {sorted(q)} answered {out.result}, ground truth {'unsat' if want_unsat else 'sat'} (history {[sorted(x) for x in seq[:k]]}, style {style})")
-            # what CounterexampleHandler._solve_end_to_end_callback does with an unsat result
-            if out.result == unsat and out.unsat_core:
-                sctx.unsat_cores.append(out.unsat_core)
+            # an unsat result is handed to the real CounterexampleHandler._solve_end_to_end_callback (which decides whether the core is cached)
+            if out.result == unsat:
+                real_callback(args, sctx, pc, out)
             acc.outcome((asked, want_unsat, style))
     finally:
         restore()
@@ -320,10 +337,52 @@ def plain_resolve(query, solver_bin):
         shutil.rmtree(d, ignore_errors=True)
 
 
+MAXBAL = 0xFFFFFFFFFFFFFFFFFFFFFFFF  # balance of the test contract
+
+
+def custom_contract(which):
+    """tests whose verdict rests on (refine) the second, refined query of a path, or (implicit) a constraint halmos adds on its own"""
+    X, Y = e2e.arg(0), e2e.arg(1)
+    m = lambda v: v + [("push", 0xF), "AND"]
+    prod = m(Y) + m(X) + ["MUL"]
+    if which == "refine":
+        funcs = {
+            "setUp()": ["STOP"],
+            # (x & 15) * (y & 15) > 255 never holds: the abstract query is sat, the refined one unsat
+            "check_r1(uint256,uint256)": e2e.if_then([("push", 255)] + prod + ["GT"], e2e.panic(1), "f") + ["STOP"],
+            # ... == 6 has solutions: the refined query is sat
+            "check_r2(uint256,uint256)": e2e.if_then(prod + [("push", 6), "EQ"], e2e.panic(1), "f") + ["STOP"],
+            # two refined queries in one test, the first unsat, the second sat
+            "check_r3(uint256,uint256)": e2e.if_then([("push", 225)] + prod + ["GT"], e2e.panic(1), "f") + e2e.if_then(prod + [("push", 225), "EQ"], e2e.panic(1), "g") + ["STOP"],
+            # division: x / y == 3 with x == 2 is impossible
+            "check_r4(uint256,uint256)": e2e.if_then(X + [("push", 2), "EQ"], e2e.if_then(Y + X + ["DIV", ("push", 3), "EQ"], e2e.panic(1), "g"), "f") + ["STOP"],
+        }
+    else:
+        call = ["PUSH0", "PUSH0", "PUSH0", "PUSH0"] + X + [("push", 0x1234), ("push", 0xFFFFFF), "CALL"]
+        # if (x > MAXBAL) { if (y == 1) { ok = call{value: x}(0x1234); if (!ok) return; } assert(false); }
+        # the continuation "the call went through" is infeasible only because of the implicit constraint balance >= x
+        inner = e2e.if_then(Y + [("push", 1), "EQ"], call + ["ISZERO", ("ref", "out"), "JUMPI"], "c") + e2e.panic(1)
+        funcs = {
+            "setUp()": ["STOP"],
+            "check_pay(uint256,uint256)": e2e.if_then([("pushn", 12, MAXBAL)] + X + ["GT"], inner, "f") + [("label", "out"), "STOP"],
+            # the same with the roles swapped: the paying side is explored second
+            "check_pay2(uint256,uint256)": e2e.if_then([("pushn", 12, MAXBAL)] + X + ["GT"],
+                                                       e2e.if_then(Y + [("push", 1), "EQ", "ISZERO"], e2e.panic(1), "d") + call + ["ISZERO", ("ref", "out2"), "JUMPI"] + e2e.panic(1), "f") + [("label", "out2"), "STOP"],
+        }
+    return e2e.Contract("K", funcs)
+
+
+CUSTOM_EXPECT = {"check_r1(uint256,uint256)": 0, "check_r2(uint256,uint256)": 1, "check_r3(uint256,uint256)": 1, "check_r4(uint256,uint256)": 0,
+                 "check_pay(uint256,uint256)": 1, "check_pay2(uint256,uint256)": 1}
+
+
 def check_differential(acc, contract_desc, solver, force_gc):
     kind = contract_desc["kind"]
     if kind == "many":
         c = many_path_contract(contract_desc["nk"], contract_desc["variant"])
+        funsigs = None
+    elif kind == "custom":
+        c = custom_contract(contract_desc["which"])
         funsigs = None
     else:
         c = testgen.mk_contract(contract_desc["tests"])
@@ -380,6 +439,10 @@ def check_differential(acc, contract_desc, solver, force_gc):
             acc.count("timeouts_not_compared")
             continue
         acc.outcome((ra.exitcode, rb.exitcode, len(cex_set(ra))))
+        want = CUSTOM_EXPECT.get(sig) if kind == "custom" else None
+        if want is not None and (ra.exitcode != want or rb.exitcode != want):
+            acc.violation(f"expected:{name}", f"{name}: {sig}: the EVM-level verdict is {want}; halmos says {ra.exitcode} without the cache and {rb.exitcode} with it", case)
+            return
         if ra.exitcode != rb.exitcode:
             acc.violation(f"verdict:{name}", f"{name}: {sig}: verdict {ra.exitcode} without the cache, {rb.exitcode} with it", case)
             return
@@ -391,7 +454,7 @@ def check_differential(acc, contract_desc, solver, force_gc):
 
 
 def diff_cases(tier):
-    out = []
+    out = [{"kind": "custom", "which": "refine"}, {"kind": "custom", "which": "implicit"}]
     for variant in ("ranges", "shared", "assume"):
         for nk in ((6, 12) if tier == "quick" else (6, 12, 24, 40)):
             out.append({"kind": "many", "nk": nk, "variant": variant})
